@@ -106,6 +106,7 @@ type StressObs struct {
 }
 
 type Job struct {
+	Limit  *LimitSpec  `json:"limit,omitempty"`
 	Make   *MakeSpec   `json:"make,omitempty"`
 	Lib    *LibSpec    `json:"lib,omitempty"`
 	Stress *StressSpec `json:"stress,omitempty"`
@@ -172,6 +173,8 @@ func childMain(path string) {
 			r = runLib(j.Lib)
 		case "make":
 			r = runMake(j.Make)
+		case "limit":
+			r = runLimit(j.Limit)
 		default:
 			r = Result{Status: "error", Msg: "unknown job kind"}
 		}
